@@ -84,6 +84,44 @@ def hmm_case(rng):
     return c
 
 
+def hmm_long_case(rng):
+    """long observation sequences: the running log marginal leaves the float32 range of
+    probabilities (exp underflows below about -87), so only a log-space recursion is exact"""
+    K = rng.choice([2, 3])
+    M = rng.choice([2, 3, 4])
+    T = rng.choice([70, 100, 150, 250])
+    pi0 = rand_stoch(rng, K, False)
+    A = [rand_stoch(rng, K, rng.random() < 0.3) for _ in range(K)]
+    E = [rand_stoch(rng, M, False) for _ in range(K)]
+    ys = [rng.randrange(M) for _ in range(T)]
+    # exact forward pass (rationals) to discard degenerate (zero-probability) sequences
+    al = [E[x][ys[0]] * pi0[x] for x in range(K)]
+    for y in ys[1:]:
+        al = [E[x2][y] * sum(al[x] * A[x][x2] for x in range(K)) for x2 in range(K)]
+    c = {"kind": "hmm_long", "K": K, "T": T, "pi0": [[p.numerator, p.denominator] for p in pi0],
+         "A": [[[p.numerator, p.denominator] for p in r] for r in A],
+         "E": [[[p.numerator, p.denominator] for p in r] for r in E], "ys": ys}
+    if sum(al) == 0:
+        c["skip"] = True
+        return c
+    f32 = lambda t: jnp.asarray([[float(x) for x in r] for r in t], dtype=jnp.float32)  # noqa: E731
+    try:
+        obs = jnp.asarray(ys, dtype=jnp.int32)
+        p0 = jnp.asarray([float(x) for x in pi0], dtype=jnp.float32)
+        alpha, lm = ss.forward_filter(obs, p0, f32(A), f32(E))
+        lm = float(lm)
+        last = np.asarray(alpha[-1], dtype=np.float64)
+        c["finite"] = bool(np.isfinite(lm))
+        if c["finite"]:
+            c["lm"] = fr(lm)
+            c["tol"] = fr(Fraction(1, 50) + Fraction(abs(lm)).limit_denominator(10 ** 6) / 20000)
+            c["filt"] = [fr(v) for v in np.exp(last)]      # rows of alpha are normalised (log filtering distributions)
+            c["log_marginal_float"] = lm
+    except Exception as e:  # noqa: BLE001
+        c["err"] = type(e).__name__ + ": " + str(e)[:200]
+    return c
+
+
 def rand_spd(rng, d):
     L = [[Fraction(rng.randint(-1, 2) if j < i else (rng.randint(1, 2) if j == i else 0)) for j in range(d)] for i in range(d)]
     return [[sum(L[i][k] * L[j][k] for k in range(d)) / 2 for j in range(d)] for i in range(d)]
@@ -128,7 +166,7 @@ def kal_case(rng):
 def main():
     out, sd, n = sys.argv[1], int(sys.argv[2]), int(sys.argv[3])
     rng = random.Random(sd)
-    cases = [hmm_case(rng) if i % 2 == 0 else kal_case(rng) for i in range(n)]
+    cases = [hmm_long_case(rng) if i % 6 == 4 else hmm_case(rng) if i % 2 == 0 else kal_case(rng) for i in range(n)]
     json.dump(cases, open(out, "w"))
 
 
